@@ -9,7 +9,7 @@ import sec as secmod
 from sec import T_DELTA, T_KEY, T_LABEL, T_MAC, DT
 
 ENTROPY = ("rand::random", "curve25519_dalek::scalar::Scalar::random")
-ENTROPY_TAILS = ("fill_bytes", "next_u64", "next_u32", "random", "random_range", "random_bool", "try_fill_bytes")
+ENTROPY_TAILS = ("fill_bytes", "next_u64", "next_u32", "random", "random_range", "random_bool", "try_fill_bytes", "random_iter", "sample", "sample_iter", "fill")
 
 
 PRIVATE_GEN_CTORS = ("crypto::aes_rng::AesRng::new", "rand::rngs::thread::rng", "rand::rng", "rand::thread_rng", "::from_os_rng", "::from_entropy", "::try_from_os_rng")
@@ -59,62 +59,165 @@ def engine_bodies(fg):
         yield k, b
 
 
+def _private_generator(fg, k, b, operand):
+    """Is the generator object behind this operand seeded privately?  Either it is created in the
+    same function family by AesRng::new() / rand::rng() / from_os_rng(), or it is a field of a struct
+    every construction of which initialises that field that way."""
+    gb = fg.backward(fg.operand_nodes(k, operand), node_ok=lambda n: n[0] != "F" and fg.bodies[n[0]].owner == b.owner, edge_ok=lambda e: e.kind in ("copy", "ref", "base2field", "field2whole", "upvar") or (e.kind in ("call", "lcall") and isinstance(e.info, dict) and (e.info.get("names") or [""])[-1].rsplit("::", 1)[-1] in ("clone", "deref", "deref_mut", "as_mut", "borrow_mut")))
+    is_ctor = lambda names: any(any(x.endswith(c) for c in PRIVATE_GEN_CTORS) for x in names)
+    for n in gb:
+        bb = fg.bodies[n[0]]
+        for cbi, ct in bb.calls():
+            if ct["d"]["l"] == n[1] and not ct["d"]["pr"] and is_ctor(callee_names(ct)):
+                return True
+    # generator stored in a struct field
+    fields = set()
+    for n in gb:
+        bb = fg.bodies[n[0]]
+        for blk in bb.blocks:
+            for st in blk["s"]:
+                if st["k"] == "assign" and st["p"]["l"] == n[1] and not st["p"]["pr"] and st["r"]["k"] in ("ref", "use"):
+                    pl = st["r"]["p"] if st["r"]["k"] == "ref" else (st["r"]["o"]["p"] if st["r"]["o"]["k"] != "const" else None)
+                    for e in (pl["pr"] if pl else []):
+                        if isinstance(e, dict) and e.get("a") and "f" in e and "Rng" in (e.get("ty") or ""):
+                            fields.add((e["a"], e["f"]))
+    for adt, fi in fields:
+        ctors = []
+        for k2, b2 in fg.bodies.items():
+            if b2.krate != "polytune":
+                continue
+            for blk in b2.blocks:
+                for st in blk["s"]:
+                    if st["k"] == "assign" and st["r"]["k"] == "agg" and (st["r"].get("adt") or "") == adt.split("<")[0] or (st["k"] == "assign" and st["r"]["k"] == "agg" and (st["r"].get("adt") or "").split("<")[0] == adt.split("<")[0]):
+                        ops = st["r"]["ops"]
+                        if fi < len(ops) and ops[fi]["k"] != "const":
+                            ob = fg.backward(fg.operand_nodes(k2, ops[fi]), node_ok=lambda n: n[0] == k2, edge_ok=lambda e: e.kind in ("copy", "ref"))
+                            ctors.append(any(ct["d"]["l"] in {x[1] for x in ob} and is_ctor(callee_names(ct)) for _c, ct in b2.calls()))
+                        else:
+                            ctors.append(False)
+        if ctors and all(ctors):
+            return True
+    return False
+
+
+def _entropy_dests(fg, k, b):
+    """locals of body k that receive private randomness (entropy call or draw from a private generator)"""
+    out = set()
+    for bi, t in b.calls():
+        if bi not in b.live_blocks():
+            continue
+        if is_entropy_call(t) or (is_rng_draw(t) is not None and t["args"][0]["k"] != "const" and _private_generator(fg, k, b, t["args"][0])):
+            out.add(t["d"]["l"])
+    return out
+
+
+_ENTROPY_FIELD = {}
+
+
+def entropy_field(fg, adt, fi):
+    """Is field `fi` of struct `adt` a buffer of private randomness: every place in the crate that stores
+    into it (push / extend / insert / assignment through `&mut self`) stores values drawn from private
+    randomness?  (removals and the empty construction do not count)"""
+    key = (adt, fi)
+    if key in _ENTROPY_FIELD:
+        return _ENTROPY_FIELD[key]
+    STORE = {"push", "extend", "insert", "extend_from_slice", "append", "push_back", "push_front", "resize", "fill", "copy_from_slice"}
+    stores = []
+    for k, b in fg.bodies.items():
+        if b.krate != "polytune":
+            continue
+        fld = set()   # locals that are (&mut) views of the field
+        for blk in b.blocks:
+            for st in blk["s"]:
+                if st["k"] == "assign" and st["r"]["k"] in ("ref", "rawptr") and not st["p"]["pr"]:
+                    fl_ = [e for e in st["r"]["p"]["pr"] if isinstance(e, dict) and "f" in e and e.get("a")]
+                    if fl_ and fl_[-1]["a"].split("<")[0] == adt.split("<")[0] and fl_[-1]["f"] == fi:
+                        fld.add(st["p"]["l"])
+                if st["k"] == "assign" and st["p"]["pr"]:
+                    fl_ = [e for e in st["p"]["pr"] if isinstance(e, dict) and "f" in e and e.get("a")]
+                    if fl_ and fl_[-1]["a"].split("<")[0] == adt.split("<")[0] and fl_[-1]["f"] == fi and st["r"]["k"] == "use" and st["r"]["o"]["k"] != "const":
+                        stores.append((k, b, [st["r"]["o"]]))
+        if not fld:
+            continue
+        ent = None
+        for bi, t in b.calls():
+            cn = callee_names(t)
+            tl = cn[-1].rsplit("::", 1)[-1] if cn else ""
+            if tl in STORE and t["args"] and t["args"][0]["k"] != "const" and t["args"][0]["p"]["l"] in fld and bi in b.live_blocks():
+                stores.append((k, b, [a for a in t["args"][1:] if a["k"] != "const"]))
+    ok = bool(stores)
+    for k, b, ops in stores:
+        ent = _entropy_dests(fg, k, b)
+        good = False
+        for o in ops:
+            back = fg.backward(fg.operand_nodes(k, o), node_ok=lambda n: n[0] == k, local=True)
+            if any(n[1] in ent for n in back):
+                good = True
+        if not good:
+            ok = False
+    _ENTROPY_FIELD[key] = ok
+    return ok
+
+
 def rule_entropy(S, res):
     fg = S.fg
-    # (1) floors
-    counts = defaultdict(int)
+    # (1) floors: number of places in the function family that obtain private randomness - direct
+    # draws, and calls of helper functions (no channel effects) that draw it
     own = defaultdict(int)
     for k, b in engine_bodies(fg):
         for bi, t in b.calls():
             if bi in b.live_blocks() and is_entropy_call(t):
                 own[b.owner] += 1
             elif bi in b.live_blocks() and is_rng_draw(t) is not None and t["args"][0]["k"] != "const":
-                # a draw from a generator that this function seeded privately (AesRng::new(), rand::rng(), ..)
-                gb = fg.backward(fg.operand_nodes(k, t["args"][0]), node_ok=lambda n: n[0] != "F" and fg.bodies[n[0]].owner == b.owner, edge_ok=lambda e: e.kind in ("copy", "ref", "base2field", "field2whole", "upvar"))
-                found = False
-                for n in gb:
-                    for e in fg.inn.get(n, ()):
-                        if e.kind == "call" and isinstance(e.info, dict) and any(any(x.endswith(c) for c in PRIVATE_GEN_CTORS) for x in (e.info.get("names") or [])):
-                            found = True
-                    bb = fg.bodies[n[0]]
-                    for cbi, ct in bb.calls():
-                        if ct["d"]["l"] == n[1] and not ct["d"]["pr"] and any(any(x.endswith(c) for c in PRIVATE_GEN_CTORS) for x in callee_names(ct)):
-                            found = True
-                if found:
+                if _private_generator(fg, k, b, t["args"][0]):
                     own[b.owner] += 1
-    # entropy drawn in helper functions (no channel effects of their own) counts for the caller, so
-    # moving `Delta(random())` into a helper stays silent
     from r7 import bodies_with_channel_effect
     eff_owners = {fg.bodies[k].owner for k in bodies_with_channel_effect(S)}
     floor_owners = {"polytune::" + f for f in ENTROPY_FLOOR}
+    memo = {}
+
+    def draws_entropy(owner, seen=None):
+        """helper (no channel effects): does it, or something it calls, draw private randomness?"""
+        if owner in memo:
+            return memo[owner]
+        seen = seen or set()
+        if owner in seen:
+            return False
+        seen.add(owner)
+        r = own.get(owner, 0) > 0
+        if not r:
+            for k in [k for k, b in fg.bodies.items() if b.owner == owner]:
+                for y in S.cg.out.get(k, ()):
+                    oy = fg.bodies[y].owner
+                    if oy != owner and oy not in eff_owners and oy not in floor_owners and draws_entropy(oy, seen):
+                        r = True
+        memo[owner] = r
+        return r
+    counts = {}
     for fn in ENTROPY_FLOOR:
         owner = "polytune::" + fn
-        roots = [k for k, b in fg.bodies.items() if b.owner == owner]
-        seen = set(roots)
-        st = list(roots)
         total = own.get(owner, 0)
-        counted = {owner}
-        while st:
-            x = st.pop()
-            for y in S.cg.out.get(x, ()):
-                if y in seen:
+        for k, b in fg.bodies.items():
+            if b.owner != owner:
+                continue
+            for bi, t in b.calls():
+                if bi not in b.live_blocks():
                     continue
-                oy = fg.bodies[y].owner
-                if oy != owner and (oy in eff_owners or oy in floor_owners):
-                    continue
-                seen.add(y)
-                st.append(y)
-                if oy not in counted:
-                    counted.add(oy)
-                    total += own.get(oy, 0)
+                tg = set()
+                for n in callee_names(t):
+                    for ck in fg.by_id.get(n, []):
+                        tg.add(fg.bodies[ck].owner)
+                tg = {o for o in tg if o != owner and o not in eff_owners and o not in floor_owners and o.startswith("polytune::")}
+                if any(draws_entropy(o) for o in tg):
+                    total += 1
         counts[fn] = total
     for fn, floor in ENTROPY_FLOOR.items():
         got = counts.get(fn, 0)
         inst = "entropy|%s" % fn.rsplit("::", 1)[-1] if "<" not in fn else "entropy|%s" % fn
         if got >= floor:
-            res.ok("R6.1", inst, "", "%d private-entropy call(s) (rand::random / Scalar::random)" % got)
+            res.ok("R6.1", inst, "", "%d place(s) obtain private randomness (rand::random / Scalar::random / a privately seeded generator, directly or through a helper)" % got)
         else:
-            res.bad("R6.1", inst, "%s draws %d private random values, %d are needed for its secrets (a secret is now constant or derived from public data)" % (fn, got, floor))
+            res.bad("R6.1", inst, "%s obtains private randomness at %d place(s), %d are needed for its secrets (a secret is now constant or derived from public data)" % (fn, got, floor))
     # (2) secret aggregates Delta(..) / Label(..) outside the operator impls
     n_sec = 0
     for k, b in engine_bodies(fg):
@@ -153,10 +256,17 @@ def rule_entropy(S, res):
                 locs = {n[1] for n in back if n[0] == k}
                 ent = False
                 derived = False
-                for cbi, t in b.calls():
-                    if t["d"]["l"] in locs:
-                        if is_entropy_call(t):
-                            ent = True
+                edests = _entropy_dests(fg, k, b)
+                if locs & edests:
+                    ent = True
+                # taken out of a struct field that only ever holds private randomness (a label buffer)
+                for blk2 in b.blocks:
+                    for st2 in blk2["s"]:
+                        if st2["k"] == "assign" and st2["p"]["l"] in locs and st2["r"]["k"] in ("ref", "use", "rawptr"):
+                            pl2 = st2["r"]["p"] if st2["r"]["k"] in ("ref", "rawptr") else (st2["r"]["o"]["p"] if st2["r"]["o"]["k"] != "const" else None)
+                            for e2 in (pl2["pr"] if pl2 else []):
+                                if isinstance(e2, dict) and "f" in e2 and e2.get("a") and (e2["a"].startswith("polytune::")) and entropy_field(fg, e2["a"], e2["f"]):
+                                    ent = True
                 for n in back:
                     ty = S.node_ty(n)
                     if n[0] == k and (ty in (T_LABEL, T_DELTA, "&" + T_LABEL, "&" + T_DELTA)) and n[1] != s["p"]["l"]:
@@ -732,3 +842,28 @@ def rule_placeholder_overwritten(S, res):
     res.count("placeholder_zip_partners_of_unknown_length", undecided)
     if not bad:
         res.ok("R6.6", "engine", "", "%d placeholder-initialised vectors in secret-creating functions are filled through zip; none with a partner sized from a different quantity" % n)
+
+
+def rule_generator_clone(S, res):
+    """R6.7: a privately seeded generator is never cloned: the clone replays the stream of the original, so
+    values that are meant to be fresh (labels, mask bits, pads) repeat.  (Clones of the *shared*
+    ChaCha20 challenge generators are C04's R4.a.)"""
+    fg = S.fg
+    n = 0
+    bad = 0
+    for k, b in engine_bodies(fg):
+        if "core::clone::Clone>::clone" in b.owner:
+            continue   # the (derived) Clone impl of a generator type clones its parts
+        for bi, t in b.calls():
+            cn = callee_names(t)
+            if not cn or bi not in b.live_blocks() or not t["args"] or t["args"][0]["k"] == "const":
+                continue
+            if cn[0].endswith("Clone::clone") or cn[-1].rsplit("::", 1)[-1] in ("clone", "clone_from", "to_owned"):
+                ty = t["args"][0]["p"]["ty"].lstrip("&").replace("mut ", "")
+                if ("Rng" in ty.rsplit("::", 1)[-1] or "rngs::" in ty) and "ChaCha20Rng" not in ty and "Option<" not in ty and "Vec<" not in ty:
+                    n += 1
+                    bad += 1
+                    res.bad("R6.7", "%s|clone" % b.owner.rsplit("::", 1)[-1], "the generator `%s` is cloned: the clone produces the same stream again, values drawn from it are not fresh (e.g. wire labels repeat, and the XOR of two labels that carry different bits is the global key)" % ty.rsplit("::", 1)[-1], where(b, bi),
+                            key="R6.7|%s|clone" % b.owner.rsplit("::", 1)[-1])
+    if not bad:
+        res.ok("R6.7", "engine", "", "no privately seeded generator is cloned")
